@@ -48,7 +48,7 @@ CHECKS = {
          "record format = JSON of the decoded request as the reference accounter emits it; syslog accounter not exercised (needs a syslog socket)", "3/C12"),
  "C18": ("taint-token runtime monitor over an injected recording logger plus the stock logger's debug output",
          "Every login carries a unique random password token and the scope a unique secret token; all logger calls (messages, Record maps minus caller-obscured keys, retained context fields) and the stock Logger's level-30 output are searched for the tokens in plain/hex/base64 form across all START combinations, ASCII/PAP flows, aborts, empty answers, error paths, slow keychains and wrong-key connections.",
-         "stock logger at level 30 is a superset of levels 10/20", "3/C18"),
+         "stock logger at level 30 in half of the batches, 10 and 20 in a quarter each", "3/C18"),
  "C10": ("reference-evaluator runtime monitor for authentication (independent evaluation of configuration + session transcript; soundness on every reply, completeness on well-formed logins)",
          "Generated configurations (scopes, users, groups, credential kinds, duplicates) and authentication histories are played against the reference server; a PASS must be justified by a (user, password) pair the session itself carried that verifies in the connection's scope; well-formed ASCII/PAP logins with the right password must end in PASS.",
          "bcrypt trusted; passwords 1..72 bytes; soundness judged generously over all pairs a session carried", "3/C10"),
